@@ -304,3 +304,246 @@ def parse_cond(text, atoms):
     if pos[0] != len(toks):
         raise Unrecognised("trailing tokens in condition %r" % text)
     return e
+
+
+# ---------------------------------------------------------------------------
+# reading values instead of spelling: let-bindings, boolean expressions compared
+# by truth table, the guard under which a statement runs
+
+def _scan_depth(s):
+    """yields (index, char, depth) with depth counting () [] {}"""
+    d = 0
+    for i, c in enumerate(s):
+        if c in "([{":
+            d += 1
+            yield i, c, d - 1
+        elif c in ")]}":
+            d -= 1
+            yield i, c, d
+        else:
+            yield i, c, d
+
+
+def let_bindings(body):
+    """{name: expr} for every `let [mut] name[: T] = expr;` of the text (any depth; first wins)."""
+    out = {}
+    for m in re.finditer(r"\blet\s+(?:mut\s+)?(\w+)\s*(?::[^=;]+)?=(?!=)", body):
+        i, d = m.end(), 0
+        j = i
+        while j < len(body):
+            c = body[j]
+            if c in "([{":
+                d += 1
+            elif c in ")]}":
+                if d == 0:
+                    break
+                d -= 1
+            elif c == ";" and d == 0:
+                break
+            j += 1
+        out.setdefault(m.group(1), " ".join(body[i:j].split()))
+    return out
+
+
+def expand(expr, binds, depth=4):
+    """replace let-bound identifiers (not fields / paths / calls) by their parenthesised definitions"""
+    for _ in range(depth):
+        changed = [False]
+
+        def sub(m):
+            n = m.group(0)
+            if n in binds and binds[n] != n:
+                changed[0] = True
+                return "(" + binds[n] + ")"
+            return n
+        expr = re.sub(r"(?<![\w.:&])(?<!\.\s)\b[a-z_]\w*\b(?!\s*(?:\(|::|!|\{|:))", sub, expr)
+        if not changed[0]:
+            break
+    return expr
+
+
+def split_top(s, op):
+    """split at the operator `op` ('&&' / '||') outside every bracket"""
+    parts, last, d, i = [], 0, 0, 0
+    while i < len(s):
+        c = s[i]
+        if c in "([{":
+            d += 1
+        elif c in ")]}":
+            d -= 1
+        elif d == 0 and s.startswith(op, i):
+            parts.append(s[last:i])
+            i += len(op)
+            last = i
+            continue
+        i += 1
+    parts.append(s[last:])
+    return parts
+
+
+def parse_bool(text, classify, binds=None, _depth=0):
+    """boolean expression -> ('atom', name) | ('not', e) | ('and'|'or', a, b) | ('const', bool).
+    classify(leaf_text) -> name | ('not', e) | True | False | None (None: Unrecognised).
+    A leaf that is not recognised as it stands is looked up in `binds` (a let-bound name stands for
+    its definition), then retried with the let-bound names inside it expanded."""
+    binds = binds or {}
+    def p_or(s):
+        ps = split_top(s, "||")
+        e = p_and(ps[0])
+        for p in ps[1:]:
+            e = ("or", e, p_and(p))
+        return e
+
+    def p_and(s):
+        ps = split_top(s, "&&")
+        e = p_un(ps[0])
+        for p in ps[1:]:
+            e = ("and", e, p_un(p))
+        return e
+
+    def p_un(s):
+        s = s.strip()
+        if not s:
+            raise Unrecognised("empty operand in condition %r" % text)
+        if s[0] == "!" and not s.startswith("!="):
+            return ("not", p_un(s[1:]))
+        if s[0] == "(" and match_brace(s, 0, "(", ")") == len(s) - 1:
+            return p_or(s[1:-1])
+        c = classify(s)
+        if c is None and re.fullmatch(r"\w+", s) and s in binds and _depth < 4:
+            return parse_bool(binds[s], classify, binds, _depth + 1)
+        if c is None and binds:
+            c = classify(expand(s, binds))
+        if c is None:
+            raise Unrecognised("unknown condition atom %r in %r" % (s, text))
+        if c is True or c is False:
+            return ("const", c)
+        if isinstance(c, tuple):
+            return c
+        return ("atom", c)
+    return p_or(" ".join(text.split()))
+
+
+def bool_atoms(e, acc=None):
+    acc = set() if acc is None else acc
+    if e[0] == "atom":
+        acc.add(e[1])
+    elif e[0] != "const":
+        for x in e[1:]:
+            bool_atoms(x, acc)
+    return acc
+
+
+def bool_eval(e, env):
+    if e[0] == "atom":
+        return env[e[1]]
+    if e[0] == "const":
+        return e[1]
+    if e[0] == "not":
+        return not bool_eval(e[1], env)
+    if e[0] == "and":
+        return bool_eval(e[1], env) and bool_eval(e[2], env)
+    return bool_eval(e[1], env) or bool_eval(e[2], env)
+
+
+def bool_equiv(a, b):
+    import itertools
+    names = sorted(bool_atoms(a) | bool_atoms(b))
+    for vals in itertools.product([False, True], repeat=len(names)):
+        env = dict(zip(names, vals))
+        if bool_eval(a, env) != bool_eval(b, env):
+            return False
+    return True
+
+
+def bool_implies(a, b):
+    return bool_equiv(("or", ("not", a), b), ("const", True))
+
+
+def enclosing_guard(body, pos):
+    """The condition (text, conjunction of the `if` / `else` guards, innermost first) under which the
+    statement at `pos` runs, looking only at the if/else blocks of `body` that enclose it.
+    `else` branches contribute the negation of their chain's conditions.  `if let` / `match` arms
+    are ignored (they do not contribute)."""
+    guards = []
+    # stack of block openers enclosing pos
+    stack = []
+    for i, c, d in _scan_depth(body[:pos]):
+        if c == "{":
+            stack.append(i)
+        elif c == "}":
+            if stack:
+                stack.pop()
+    for ob in reversed(stack):
+        g = _guard_of_block(body, ob)
+        if g is not None:
+            guards.append(g)
+    return guards
+
+
+def _cond_before(body, ob):
+    """for a block opened at `ob` by `if COND {`: (COND, index of the `if`) else None"""
+    # walk back to the `if` at bracket depth 0 relative to ob
+    d, i = 0, ob - 1
+    while i >= 0:
+        c = body[i]
+        if c in ")]":
+            d += 1
+        elif c in "([":
+            if d == 0:
+                return None
+            d -= 1
+        elif c in "{};" and d == 0:
+            break
+        i -= 1
+    seg = body[i + 1:ob]
+    m = re.match(r"\s*(?:else\s+)?if\b(.*)$", seg, re.S)
+    if not m:
+        return None
+    cond = " ".join(m.group(1).split())
+    if cond.startswith("let "):
+        return None
+    return cond, i + 1 + seg.index("if")
+
+
+def _guard_of_block(body, ob):
+    head = body[:ob].rstrip()
+    if head.endswith("else"):
+        # negation of every condition of the chain
+        conds = []
+        k = len(head) - 4
+        while True:
+            prev = body[:k].rstrip()
+            if not prev.endswith("}"):
+                return None
+            # find the opener of that block
+            close = len(prev) - 1
+            depth, j = 0, close
+            while j >= 0:
+                if body[j] == "}":
+                    depth += 1
+                elif body[j] == "{":
+                    depth -= 1
+                    if depth == 0:
+                        break
+                j -= 1
+            cb = _cond_before(body, j)
+            if cb is None:
+                return None
+            conds.append(cb[0])
+            before_if = body[:cb[1]].rstrip()
+            if before_if.endswith("else"):
+                k = len(before_if) - 4
+                continue
+            break
+        return "!(" + ") && !(".join(conds) + ")"
+    cb = _cond_before(body, ob)
+    if cb is None:
+        return None
+    cond, ifpos = cb
+    before_if = body[:ifpos].rstrip()
+    if before_if.endswith("else"):
+        # `else if COND {`: COND and the negation of the chain before it
+        neg = _guard_of_block(body, ifpos)
+        return "(" + cond + ")" + (" && " + neg if neg else "")
+    return cond
